@@ -19,7 +19,7 @@ BUDGET = {"quick": 45, "thorough": 1200}
 RUN_TIMEOUT = 150
 SELFTEST_PAIRS = {"quick": 10, "thorough": 30}
 PROBES = ["abs_name", "dotdot_name", "backslash_or_drive_name", "very_long_name", "name_of_existing_host_file", "tar_link_member", "tar_device_or_fifo",
-          "7z_ghost_entry", "7z_ghost_pointing_at_canary", "oversize_member", "hidden_or_macos_member", "nested_archive_member", "closed_while_tempdir_existed",
+          "7z_ghost_entry", "7z_ghost_pointing_at_canary", "oversize_member", "oversize_twin_of_small_member", "hidden_or_macos_member", "nested_archive_member", "closed_while_tempdir_existed",
           "throw_while_tempdir_existed", "dropped_while_tempdir_existed", "fs_fault_write", "fs_fault_read", "fs_fault_makedirs", "two_archives_alternating",
           "archive_raised_family_error", "history_of_archives", "corrupt_archive"]
 RULE = ("one run = a history of 1-3 archives (zipfile / tarfile / own 7z writer) over a hostile member-name grammar, each processed in a "
@@ -136,6 +136,20 @@ def _gen_archive(rng, tier):
             m["link"] = tgt["name"] if tgt else "nowhere.txt"
             if m["name"] in ("", "/", ".", "..") or not m["name"].lower().endswith((".txt", ".csv", ".md", ".html", ".json")):
                 m["name"] = "copy_of_member.txt"
+    if rng.random() < 0.15 and anyfile:
+        # two entries with one name: each is judged (and skipped) on its own size and class, whichever the packer listed first
+        src = rng.choice(anyfile)
+        twin = dict(src, token=f"TOKd{rng.randrange(10000)}", classes=list(src["classes"]) + ["dupname"])
+        if not src.get("oversize"):
+            twin["oversize"] = True
+            twin["classes"].append("oversize")
+        else:
+            twin.pop("oversize", None)
+            twin["classes"] = [c for c in twin["classes"] if c != "oversize"]
+        if rng.random() < 0.5:
+            members.append(twin)
+        else:
+            members.insert(members.index(src), twin)
     spec = {"fmt": fmt, "members": members}
     if fmt == "zip":
         spec["zip_method"] = rng.choice(["stored", "deflated"])
@@ -294,7 +308,7 @@ def _check_history(run, sbx, fmt, classes, mode, k, results, exc, events, fds0, 
     from sharepoint2text.parsing.exceptions import ExtractionError
     cwd = sbx.cwd
     sig_cls = "ghost" if "ghost" in classes else "tar_special" if "tar_special" in classes else \
-        ("+".join(sorted(c for c in classes if c not in ("plain", "odd", "shared", "hidden", "nested", "unsupported", "oversize", "long"))) or "plain")
+        ("+".join(sorted(c for c in classes if c not in ("plain", "odd", "shared", "hidden", "nested", "unsupported", "oversize", "long", "dupname"))) or "plain")
     ctx = f"{fmt}|{mode}"
     # confinement
     for (name, path, m, fl) in events:
@@ -566,6 +580,8 @@ def _probes_for(run, spec, a):
                 run.probe("7z_ghost_pointing_at_canary")
         if m.get("oversize"):
             run.probe("oversize_member")
+            if "dupname" in cl or any(o is not m and o["name"] == m["name"] for o in a["spec"]["members"] if o["kind"] == "file"):
+                run.probe("oversize_twin_of_small_member")
         if "hidden" in cl:
             run.probe("hidden_or_macos_member")
         if "nested" in cl:
